@@ -27,7 +27,7 @@ LEVEL_NOTE = ('Cell values are exactly representable doubles chosen to be unique
 RULE = ("cases: configurations (kind, shape, order supplied, unit, optional parts); executions: write + reads in both orders (+ memmap variants, + get_sed per model), one evaluation per "
         "cell-array comparison; non-trivial = distinct configurations with >= 2 wavelengths whose supplied order or read order requires a reversal, or with an optional part absent")
 ASSUMPTIONS = ["values are finite and positive", "astropy.io.fits round-trips float64 arrays exactly"]
-REQUIRED_CLASSES = ['model-names-of-40-characters', 'read-arguments-by-position', 'single-precision-values-handed-over', 'sed', 'cube', 'convolved', 'supplied-wav-ascending', 'supplied-wav-descending', 'read-order-nu', 'read-order-wav', 'no-apertures', 'no-uncertainties',
+REQUIRED_CLASSES = ['zero-flux-cell', 'names-differing-only-in-case', 'model-names-of-40-characters', 'read-arguments-by-position', 'single-precision-values-handed-over', 'sed', 'cube', 'convolved', 'supplied-wav-ascending', 'supplied-wav-descending', 'read-order-nu', 'read-order-wav', 'no-apertures', 'no-uncertainties',
                     'memmap-on', 'memmap-off', 'get_sed', 'unit-erg/cm2/s', 'unit-erg/s', 'unit-Jy', 'writer-vs-fits', 'fits-vs-reader', 'written-twice', 'other-family-unit-both-orders', 'cube-nu-consistent', 'earlier-extracted-seds-rechecked', 'file-overwritten-then-read']
 TIMEOUT = {'quick': 300, 'thorough': 1800}
 
@@ -133,6 +133,10 @@ def _sed(ctx, case, rec, d, key):
     wav = _wav(n_wav, sup)
     cells = _cells(1, n_ap, n_wav, ctx['seed'] % 7)[0]           # (max(n_ap,1), n_wav) aligned with wav
     err = cells / 8.0
+    if n_wav >= 3:
+        cells = cells.copy()
+        cells[-1, 1] = 0.0          # one cell holds exactly zero flux (its uncertainty does not)
+        rec.cls('zero-flux-cell')
     ap = None if n_ap == 0 else 100.0 * 3.0 ** np.arange(n_ap)
     uq = u.Unit(unit)
     rec.cls('supplied-' + ('wav-ascending' if sup == 'wav-asc' else 'wav-descending'))
@@ -146,7 +150,7 @@ def _sed(ctx, case, rec, d, key):
     if path in ('lib-lib', 'lib-fits'):
         s = SED()
         s.name = 'model_x'
-        s.distance = 1.0 * u.kpc
+        s.distance = 2.5 * u.kpc          # (not 1 kpc: a factor d^2 that is 1 would hide there)
         s.wav = wav * u.micron
         s.nu = s.wav.to(u.Hz, equivalencies=u.spectral())
         if ap is not None:
@@ -178,7 +182,7 @@ def _sed(ctx, case, rec, d, key):
             _viol(rec, 'sed-write|object-modified', case, {'problem': 'after SED.write the object no longer holds the cells it was given'})
         fn = fn2 if (n_wav + n_ap) % 2 else fn        # half of the configurations go on with the second file
     else:
-        pkgwriter.write_sed_file(d, 'model_x', wav, cells, err, apertures_au=ap, unit=uq.to_string(format='fits'), filename='sed.fits')
+        pkgwriter.write_sed_file(d, 'model_x', wav, cells, err, apertures_au=ap, unit=uq.to_string(format='fits'), filename='sed.fits', distance_cm=2.5 * pkgwriter.KPC_CM)
         fn = os.path.join(d, 'seds', 'sed.fits')
         rec.cls('fits-vs-reader')
     if path == 'lib-fits':
@@ -245,7 +249,7 @@ def _sed(ctx, case, rec, d, key):
     if path == 'lib-lib':
         s2 = SED()
         s2.name = 'model_y'
-        s2.distance = 1.0 * u.kpc
+        s2.distance = 2.5 * u.kpc
         s2.wav = wav * u.micron
         s2.nu = s2.wav.to(u.Hz, equivalencies=u.spectral())
         if ap is not None:
@@ -298,6 +302,9 @@ def _cube(ctx, case, rec, d, key):
     err = cells / 8.0
     ap = None if n_ap == 0 else 100.0 * 3.0 ** np.arange(n_ap)
     names = ['cm_%02d' % ((i * 5 + 1) % n_models) for i in range(n_models)] if n_models > 1 else ['cm_00']
+    if case.get('names') != 'long' and n_models >= 2:
+        names[0], names[1] = 'Model_B1', 'model_b1'          # two names that differ only in case
+        rec.cls('names-differing-only-in-case')
     if case.get('names') == 'long':
         # names that encode parameters: 40 characters, the first 38 shared (a cube's name column is as wide as its names)
         names = ['cube_model_with_parameters_in_the_name_' + nm_[-2:][::-1] for nm_ in names]
@@ -314,7 +321,7 @@ def _cube(ctx, case, rec, d, key):
     if path in ('lib-lib', 'lib-fits'):
         c = SEDCube()
         c.names = np.array(names)
-        c.distance = 1.0 * u.kpc
+        c.distance = 2.5 * u.kpc
         c.wav = wav * u.micron
         if ap is not None:
             c.apertures = ap * u.au
@@ -333,7 +340,7 @@ def _cube(ctx, case, rec, d, key):
             return
         fn = fn2 if (n_wav + n_ap + n_models) % 2 else fn
     else:
-        pkgwriter.write_cube(d, names, wav, cells, unc=err if has_unc else None, apertures_au=ap, unit=uq.to_string())
+        pkgwriter.write_cube(d, names, wav, cells, unc=err if has_unc else None, apertures_au=ap, unit=uq.to_string(), distance_cm=2.5 * pkgwriter.KPC_CM)
         rec.cls('fits-vs-reader')
     if path == 'lib-fits':
         rec.cls('writer-vs-fits')
